@@ -13,6 +13,9 @@ L = lane_mod.Lane(os.environ.get('VERIF_REPO', '/repo'), scratch, 0, [prop])
 t0 = time.time(); L.boot(); print('boot %.2fs' % (time.time() - t0))
 rdir = os.path.join(L.scratch, 'run'); os.makedirs(rdir)
 tempfile.tempdir = rdir
+prep = getattr(L.props[prop], 'prepare_job', None)
+t0 = time.time()
+if prep: prep(L, job); print('prepare %.2fs' % (time.time() - t0))
 t0 = time.time()
 res = L.props[prop].run_job(L, job, rdir)
 print('run %.2fs' % (time.time() - t0))
